@@ -99,3 +99,9 @@ CHECKS.update({
     note='Faults are injected on the enumerated event kinds, not on close(); the lower-level API of the library itself is the reference for the map content (C09 checks that API).',
     technique='fault-point enumeration over Hypothesis-generated scenarios with recording doubles'),
 })
+CHECKS.update({
+ 'C17': dict(
+    text='For generated programs, single-token mutants, short token strings and repository snippets (both comment modes) the outcome - tree dump with positions and comments, or exception type and message - is compared between the default parser on tables produced by `optimize --build`, a parser with lex/yacc optimisation off on private table names (in-memory build and signature-checked re-read, alternated by purging the private module every 50 texts), and an interpreter on a second copy whose table modules were purged and regenerated by the optimize helper; the regenerated table modules are also compared with the first build.',
+    note='Outcomes are compared between configurations of the code under test (differential across table modes); single-parse correctness is C03.',
+    technique='differential property-based testing across parser table configurations (Hypothesis)'),
+})
